@@ -10,10 +10,19 @@ type Variant struct {
 	Raise    int  `json:"raise"`     // 0 integer division by zero, 1 array index out of range, 2 throw errors.New
 	CatchVar bool `json:"catch_var"` // catch (e) { ... } instead of catch { ... }
 	DeferFn  bool `json:"defer_fn"`  // defer func(){ print }() instead of defer fmt.Println(...)
+	// DeferNamed spells BOTH kinds of deferred call (print, recover+print) as a
+	// call of a named function or method instead of a built-in call / literal:
+	// 1 defer namedFunc()   2 defer namedFunc(id)   3 defer value.Method()
+	DeferNamed int `json:"defer_named,omitempty"`
 }
 
 func (v Variant) String() string {
-	return fmt.Sprintf("raise%d/catchvar=%v/deferfn=%v", v.Raise, v.CatchVar, v.DeferFn)
+	s := fmt.Sprintf("raise%d/catchvar=%v/deferfn=%v", v.Raise, v.CatchVar, v.DeferFn)
+	if v.DeferNamed != 0 {
+		s += fmt.Sprintf("/defernamed=%d", v.DeferNamed)
+	}
+
+	return s
 }
 
 type emitter struct {
@@ -55,7 +64,22 @@ func (e *emitter) block(ind int, b []*Stmt, loopDepth int) {
 			e.line(ind, `break`)
 		case 'c':
 			e.line(ind, `continue`)
-		case 'd':
+		case 'd', 'r':
+			if e.v.DeferNamed != 0 {
+				e.namedDefer(ind, s)
+
+				break
+			}
+
+			if s.K == 'r' {
+				e.line(ind, `defer func() {`)
+				e.line(ind+1, `recover()`)
+				e.mark(ind+1, "R", s.ID)
+				e.line(ind, `}()`)
+
+				break
+			}
+
 			if e.v.DeferFn {
 				e.line(ind, `defer func() {`)
 				e.mark(ind+1, "D", s.ID)
@@ -63,11 +87,6 @@ func (e *emitter) block(ind int, b []*Stmt, loopDepth int) {
 			} else {
 				e.line(ind, `defer fmt.Println("D", %d)`, s.ID)
 			}
-		case 'r':
-			e.line(ind, `defer func() {`)
-			e.line(ind+1, `recover()`)
-			e.mark(ind+1, "R", s.ID)
-			e.line(ind, `}()`)
 		case '1', '2':
 			e.line(ind, `%sf%c()`, e.prefix, s.K)
 		case 'T', 'U':
@@ -110,7 +129,59 @@ func (e *emitter) block(ind int, b []*Stmt, loopDepth int) {
 	}
 }
 
+// namedDefer spells a deferred print (d) or recover+print (r) as a call of a
+// named function, a named function with an argument, or a method value.
+func (e *emitter) namedDefer(ind int, s *Stmt) {
+	kind := "d"
+	if s.K == 'r' {
+		kind = "r"
+	}
+
+	switch e.v.DeferNamed {
+	case 1:
+		e.line(ind, `defer %s%s%d()`, e.prefix, kind, s.ID)
+	case 2:
+		e.line(ind, `defer h%s(%d)`, kind, s.ID)
+	default:
+		e.line(ind, `h%d := H{id: %d}`, s.ID, s.ID)
+
+		if s.K == 'r' {
+			e.line(ind, `defer h%d.R()`, s.ID)
+		} else {
+			e.line(ind, `defer h%d.D()`, s.ID)
+		}
+	}
+}
+
+// deferHelpers emits, for spelling 1, one named function per defer statement.
+func (e *emitter) deferHelpers(b []*Stmt) {
+	for _, s := range b {
+		switch s.K {
+		case 'd':
+			e.line(0, `func %sd%d() {`, e.prefix, s.ID)
+			e.mark(1, "D", s.ID)
+			e.line(0, `}`)
+			e.line(0, ``)
+		case 'r':
+			e.line(0, `func %sr%d() {`, e.prefix, s.ID)
+			e.line(1, `recover()`)
+			e.mark(1, "R", s.ID)
+			e.line(0, `}`)
+			e.line(0, ``)
+		}
+
+		e.deferHelpers(s.Body)
+		e.deferHelpers(s.Catch)
+	}
+}
+
 func (e *emitter) funcs(p *Prog) {
+	if e.v.DeferNamed == 1 {
+		for _, f := range p.F {
+			e.deferHelpers(f)
+		}
+	}
+
 	for k := len(p.F) - 1; k >= 0; k-- {
 		e.line(0, `func %sf%d() {`, e.prefix, k)
 		e.mark(1, "Bf", k)
@@ -157,6 +228,33 @@ func header(e *emitter) {
 	}
 
 	e.line(0, ``)
+
+	switch e.v.DeferNamed {
+	case 2:
+		e.line(0, `func hd(id int) {`)
+		e.line(1, `fmt.Println("D", id)`)
+		e.line(0, `}`)
+		e.line(0, ``)
+		e.line(0, `func hr(id int) {`)
+		e.line(1, `recover()`)
+		e.line(1, `fmt.Println("R", id)`)
+		e.line(0, `}`)
+		e.line(0, ``)
+	case 3:
+		e.line(0, `type H struct {`)
+		e.line(1, `id int`)
+		e.line(0, `}`)
+		e.line(0, ``)
+		e.line(0, `func (h H) D() {`)
+		e.line(1, `fmt.Println("D", h.id)`)
+		e.line(0, `}`)
+		e.line(0, ``)
+		e.line(0, `func (h H) R() {`)
+		e.line(1, `recover()`)
+		e.line(1, `fmt.Println("R", h.id)`)
+		e.line(0, `}`)
+		e.line(0, ``)
+	}
 }
 
 // soloSource is one program as a complete Ego source file.
